@@ -1,4 +1,102 @@
-(** Harness glue for C18 (stub: no families yet). *)
-From Coq Require Import List String.
-From KV Require Import Glue.Val.
-Definition c18_run (fam : string) (args : list val) : option string := None.
+(** Harness glue for C18.
+
+    A literal's SOURCE is sent as the bytes of its token text: [x22615c6e22] is the
+    token ["a\n"]; [concat!(a, b)] is sent as [[C,<a>,<b>]].  The model decodes it
+    itself (Model/Literal.v).
+
+    c18.lit                 src                          -> S(x<decoded bytes>) | N
+    c18.strip_prefix ..     [[src,..],..] input off dir  -> br=S(i)|N;rem=<view>;off=..;dir=S|E|B
+    c18.trim_start_matches  [src,..] input off dir       -> rem=<view>;off=..;dir=..
+    c18.skip / c18.skip_back input n off dir             -> rem=<view>;off=..;dir=..
+    ([dir]: S = FromStart, E = FromEnd; the parser is Parser::with_start_offset(input, off),
+    after [skip_back(0)] when dir = E.) *)
+From Coq Require Import List ZArith Bool String.
+From KV Require Import Base.Prelude Model.Literal Model.ParserMethod Glue.Val.
+Import ListNotations.
+Local Open Scope string_scope.
+
+Definition is_C (v : val) : bool := match v with VA s => String.eqb s "C" | _ => false end.
+
+Fixpoint val_to_src (v : val) : lsrc :=
+  match v with
+  | VL (h :: t) =>
+      if is_C h then
+        SConcat ((fix go (l : list val) : list lsrc :=
+                    match l with [] => [] | a :: r => val_to_src a :: go r end) t)
+      else SLit (as_bytes v)
+  | _ => SLit (as_bytes v)
+  end.
+
+Fixpoint all_some {A} (l : list (option A)) : option (list A) :=
+  match l with
+  | [] => Some []
+  | Some x :: t => match all_some t with Some r => Some (x :: r) | None => None end
+  | None :: _ => None
+  end.
+
+Definition decode_alts (v : val) : option (list (list Z)) :=
+  all_some (map (fun s => decode_src (val_to_src s)) (as_list v)).
+Definition decode_brs (v : val) : option (list (list (list Z))) :=
+  all_some (map decode_alts (as_list v)).
+
+Definition dir_of (v : val) : pdir :=
+  let s := as_atom v in
+  if String.eqb s "E" then FromEnd else if String.eqb s "B" then FromBoth else FromStart.
+Definition show_dir (d : pdir) : string :=
+  match d with FromStart => "S" | FromEnd => "E" | FromBoth => "B" end.
+
+Definition show_rem (s : side) (input r : list Z) : string :=
+  match s with
+  | AtStart => show_view (zlen input - zlen r) (zlen r)
+  | AtEnd => show_view 0 (zlen r)
+  end.
+
+Definition show_parser (s : side) (input : list Z) (p : parser) : list (string * string) :=
+  [("rem", show_rem s input (p_rem p)); ("off", show_Z (p_off p)); ("dir", show_dir (p_dir p))].
+
+Definition show_outcome (s : side) (input : list Z) (o : outcome) : string :=
+  show_fields (("br", show_opt show_nat (fst o)) :: show_parser s input (snd o)).
+
+Definition run_match (form : side -> list (list (list Z)) -> parser -> outcome) (s : side)
+  (brs input off dir : val) : option string :=
+  match decode_brs brs with
+  | None => Some "NOCOMPILE"
+  | Some b =>
+      let inp := as_bytes input in
+      Some (show_outcome s inp (form s b (mkP inp (as_Z off) (dir_of dir))))
+  end.
+
+Definition run_trim (s : side) (alts input off dir : val) : option string :=
+  match decode_alts alts with
+  | None => Some "NOCOMPILE"
+  | Some a =>
+      let inp := as_bytes input in
+      match trim_macro s a (mkP inp (as_Z off) (dir_of dir)) with
+      | Some p => Some (show_fields (show_parser s inp p))
+      | None => Some "OUT-OF-FUEL"
+      end
+  end.
+
+Definition run_skip (back : bool) (input n off dir : val) : string :=
+  let inp := as_bytes input in
+  let p := mkP inp (as_Z off) (dir_of dir) in
+  if back then show_fields (show_parser AtEnd inp (skip_back_m p (as_Z n)))
+  else show_fields (show_parser AtStart inp (skip_m p (as_Z n))).
+
+Definition c18_run (fam : string) (args : list val) : option string :=
+  match args with
+  | [src] =>
+      if String.eqb fam "c18.lit" then Some (show_opt show_bytes (decode_src (val_to_src src)))
+      else None
+  | [a; input; off; dir] =>
+      if String.eqb fam "c18.strip_prefix" then run_match strip_macro AtStart a input off dir
+      else if String.eqb fam "c18.strip_suffix" then run_match strip_macro AtEnd a input off dir
+      else if String.eqb fam "c18.find_skip" then run_match find_macro AtStart a input off dir
+      else if String.eqb fam "c18.rfind_skip" then run_match find_macro AtEnd a input off dir
+      else if String.eqb fam "c18.trim_start_matches" then run_trim AtStart a input off dir
+      else if String.eqb fam "c18.trim_end_matches" then run_trim AtEnd a input off dir
+      else if String.eqb fam "c18.skip" then Some (run_skip false a input off dir)
+      else if String.eqb fam "c18.skip_back" then Some (run_skip true a input off dir)
+      else None
+  | _ => None
+  end.
